@@ -1,6 +1,9 @@
 use num::{One, Zero};
 use sha3::digest::{ExtendableOutput, Update, XofReader};
+#[cfg(not(falcon_rust_verif))]
 use sha3::Shake256;
+#[cfg(falcon_rust_verif)]
+use crate::verif_hooks::Shake256;
 use std::default::Default;
 use std::fmt::{Debug, Display};
 use std::ops::{Add, AddAssign, Div, Mul, MulAssign, Neg, Sub, SubAssign};
@@ -627,8 +630,6 @@ pub(crate) fn hash_to_point(string: &[u8], n: usize) -> Polynomial<Felt> {
     let mut hasher = Shake256::default();
     hasher.update(string);
     let mut reader = hasher.finalize_xof();
-    #[cfg(falcon_rust_verif)]
-    let mut reader = crate::verif_hooks::XofTap::wrap(reader);
 
     let mut coefficients: Vec<Felt> = vec![];
     while coefficients.len() != n {
